@@ -384,7 +384,7 @@ def doOp (env : Array Dec) (c : Ctx) (toks : List String) : Step :=
     let (e, c') := c.takeErr
     { env := env, ctx := some c', extra := if e then "ErrNaN" else "nil", spec := frameOk env [],
       tags := ["cerr", if e then "had-error" else "no-error"] }
-  | ["cnil", z, _y] =>
+  | "cnil" :: z :: _y :: _ =>
     -- a nil operand: a runtime error that is not ErrNaN must propagate unless an error is latched
     match getVar env z with
     | some (zi, zv) =>
